@@ -73,10 +73,46 @@ def structured(ctx, classes, n_schema, gen, per_class):
                         ok = True
                 except Exception as e:  # noqa
                     why = f"decoder raised {cc.err_name(e)}"
+            if ok and idx % 7 == 3:
+                # the nullable flavour of the same class (what nested nullable structs use): a presence marker in front of the
+                # very same encoding, and None as the one-byte null marker - also after the plain flavour was built and used
+                why = nullable_flavour(cls, inst, enc[1], tail)
+                ok = why is None
             case["c01_ok"] = ok
             case["c01_why"] = why
             cases.append(case)
     return cases
+
+
+def nullable_flavour(cls, inst, plain: bytes, tail: bytes):
+    from kio.serial import entity_reader, entity_writer
+
+    try:
+        b = io.BytesIO()
+        entity_writer(cls, True)(b, inst)
+        if b.getvalue() != b"\x01" + plain:
+            return f"nullable writer: wrote {b.getvalue()[:12].hex()}..., expected the marker 01 followed by the plain encoding"
+        b = io.BytesIO()
+        entity_writer(cls, True)(b, None)
+        if b.getvalue() != b"\xff":
+            return f"nullable writer: None written as {b.getvalue().hex()}, expected ff"
+        src = io.BytesIO(b"\x01" + plain + tail)
+        back = entity_reader(cls, True)(src)
+        if back != inst or src.read() != tail:
+            return "nullable reader: marker 01 + encoding does not decode to the instance with exact consumption"
+        src = io.BytesIO(b"\xff" + tail)
+        if entity_reader(cls, True)(src) is not None or src.read() != tail:
+            return "nullable reader: marker ff does not decode to None with exact consumption"
+        # the two flavours stay distinct objects with distinct behaviour
+        b = io.BytesIO()
+        entity_writer(cls)(b, inst)
+        if b.getvalue() != plain:
+            return "plain writer changed after the nullable flavour was used"
+        if entity_reader(cls)(io.BytesIO(plain + tail)) != inst:
+            return "plain reader changed after the nullable flavour was used"
+    except Exception as e:  # noqa
+        return f"nullable flavour raised {cc.err_name(e)}"
+    return None
 
 
 def corrupt_last_leaf(v):
